@@ -764,6 +764,13 @@ def e2e_part(ck, quick, replay=None):
             ls[n - 1] = newt
             variant = ck.rng.random()
             src = "\n".join(ls) + "\n"
+            # a module doc string in front (one line, two lines, closing quotes on a line of their own): the fault moves down
+            dv = ck.rng.random()
+            if dv < 0.18:
+                doc = ck.rng.choice(['"""module doc"""\n', '"""first\nsecond"""\n', '"""\nbody of the doc\n"""\n',
+                                     '"""\nbody\n\nmore\n"""\n'])
+                src = doc + src
+                n = n + doc.count("\n")
             if variant < 0.1:
                 src = src[:-1]                                   # no trailing newline
             elif variant < 0.2:
